@@ -141,13 +141,37 @@ pub fn run_case_after(case: &Case, before: Option<&Case>, hash_seed: u64, pool: 
             let _ = tx.send(ctx);
         })
         .expect("spawn run thread");
-    match rx.recv_timeout(timeout) {
-        Ok(ctx) => {
-            let _ = h.join();
-            Some(ctx)
+    // The budget is CPU time of this worker process (one run at a time per process), not wall time: a
+    // machine that is busy with something else (other checks, compilers) must not turn a slow run into a
+    // reported hang. A run that burns no CPU at all (a deadlock) is ended by a wall-clock backstop of 30 x
+    // the budget. Neither clock decides anything but "this run hung".
+    let cpu0 = process_cpu_s();
+    let t0 = Instant::now();
+    loop {
+        match rx.recv_timeout(Duration::from_millis(200)) {
+            Ok(ctx) => {
+                let _ = h.join();
+                return Some(ctx);
+            }
+            Err(std::sync::mpsc::RecvTimeoutError::Disconnected) => return None,
+            Err(std::sync::mpsc::RecvTimeoutError::Timeout) => {
+                let cpu = process_cpu_s() - cpu0;
+                if cpu >= timeout.as_secs_f64() || t0.elapsed() >= timeout * 30 {
+                    return None;
+                }
+            }
         }
-        Err(_) => None,
     }
+}
+
+/// user + system CPU seconds consumed by this process so far (all threads), from /proc/self/stat
+fn process_cpu_s() -> f64 {
+    let Ok(s) = std::fs::read_to_string("/proc/self/stat") else { return 0.0 };
+    // fields after the parenthesised command name: state is field 3, utime 14, stime 15
+    let Some(rest) = s.rsplit(')').next() else { return 0.0 };
+    let f: Vec<&str> = rest.split_whitespace().collect();
+    let ticks = |i: usize| f.get(i).and_then(|x| x.parse::<f64>().ok()).unwrap_or(0.0);
+    (ticks(11) + ticks(12)) / 100.0
 }
 
 #[derive(Serialize, Deserialize, Clone, Debug)]
